@@ -369,8 +369,16 @@ func (w *w2) judgeJoins() {
 			}
 			// excused if a newer generation (or a failover / expiry signal) was visible before this sync returned
 			excused := false
+			// a LeaveGroup of an identity that had already left and was nevertheless answered NONE: the
+			// rejoins that follow it are its consequence, not a reason for the generation to end
+			staleLeaveAccepted := -1
+			for _, o := range w.answered("leave") {
+				if o.group == s.group && o.deviant == "stale-leave" && o.code == 0 && o.ret > ls.ret && o.ret <= s.ret && (staleLeaveAccepted < 0 || o.ret < staleLeaveAccepted) {
+					staleLeaveAccepted = o.ret
+				}
+			}
 			for _, o := range w.answered("") {
-				if o.group == s.group && o.ret <= s.ret && o.ret > lj.ret && ((o.kind == "join" && o.respGen != ls.reqGen) || (o.kind == "leave" && o.code == 0) || o.coord != s.coord) {
+				if o.group == s.group && o.ret <= s.ret && o.ret > lj.ret && ((o.kind == "join" && o.respGen != ls.reqGen && (staleLeaveAccepted < 0 || o.invoke < staleLeaveAccepted)) || (o.kind == "leave" && o.code == 0 && o.deviant == "") || o.coord != s.coord) {
 					excused = true
 				}
 			}
